@@ -57,7 +57,11 @@ func (f *FieldUpdater) Validate(m proto.Message) error {
 // Merge copies the values in src into dst based on the configured field masks.
 func (f *FieldUpdater) Merge(dst, src proto.Message) {
 	if f.writableFields != nil && len(f.writableFields.Paths) == 0 {
-		return // nothing is writable
+		// nothing is writable, the reset mask is not affected by that (an empty update mask still means no changes)
+		if f.updateMask == nil || len(f.updateMask.Paths) > 0 {
+			f.reset(dst)
+		}
+		return
 	}
 
 	var writableMask fmutils.NestedMask
@@ -90,11 +94,14 @@ func (f *FieldUpdater) Merge(dst, src proto.Message) {
 	// if a field mentioned by the mask is nil, we should clear it
 	pruneEmpty(dst, src, updateMask)
 
+	f.reset(dst)
+}
+
+// reset clears the fields of dst mentioned by the reset mask.
+func (f *FieldUpdater) reset(dst proto.Message) {
 	if f.resetMask != nil {
 		nestedMask(f.resetMask.Paths).Prune(dst)
 	}
-
-	return
 }
 
 func pruneEmpty(dst, src proto.Message, mask fmutils.NestedMask) {
